@@ -34,7 +34,7 @@ Inductive result := ROk | RStopped | RDup | RStillRunning.
 Inductive event :=
 | EvBegin (t n : nat)            (* BackgroundWorker call t for name n entered *)
 | EvBW (t : nat) (r : result)    (* ... and returned r *)
-| EvStart (w n : nat) (o : Z)    (* worker w (name n, order o) started *)
+| EvStart (w c n : nat) (o : Z)  (* worker w (registered by call c, name n, order o) started *)
 | EvCancel (w : nat)             (* ctxCancel of worker w *)
 | EvReturn (w : nat)             (* body of w returned *)
 | EvShutRet (t : nat)            (* stopOnce.Do(shutdown) returned in call t (ShutdownAndWait returns here) *)
@@ -158,15 +158,16 @@ Definition start_worker (s : st) (w : nat) : st :=
   let s1 := set_wg s (wgmap s) (wg_add (w_order wk) (wgcnt s)) in
   let s2 := set_heap s1 (upd (heap s1) w (fun x =>
               mkW (w_name x) (w_order x) (w_kind x) (w_tid x) true true (w_cancelled x) false)) in
-  add_log (spawn s2 (WB w)) (EvStart w (w_name wk) (w_order wk)).
+  add_log (spawn s2 (WB w)) (EvStart w (w_tid wk) (w_name wk) (w_order wk)).
 
 Definition cancel_worker (s : st) (w : nat) : st :=
   add_log (set_heap s (upd (heap s) w (fun x =>
      mkW (w_name x) (w_order x) (w_kind x) (w_tid x) (w_started x) (w_flag x) true (w_returned x)))) (EvCancel w).
 
 (* return of a BackgroundWorker call: unlock (if held), log, finish *)
-Definition bw_ret (s : st) (t : nat) (r : result) : st :=
-  add_log (set_pc (set_lock s None) t Fin) (EvBW t r).
+Definition bw_fin (s : st) (t : nat) (r : result) : st :=
+  add_log (set_pc s t Fin) (EvBW t r).
+Definition bw_ret (s : st) (t : nat) (r : result) : st := bw_fin (set_lock s None) t r.
 
 Definition after_start (s : st) (t : nat) (run : bool) : st :=
   set_pc s t (if run then RW0 else Fin).
@@ -189,7 +190,7 @@ Definition step (c : cfg) (s : st) (t : nat) (ch : nat) : option st :=
     match p with
     | BW0 n o k =>
         let s := add_log s (EvBegin t n) in
-        if stopped s then Some (bw_ret s t RStopped) else Some (set_pc s t (BW1 n o k))
+        if stopped s then Some (bw_fin s t RStopped) else Some (set_pc s t (BW1 n o k))
     | BW1 n o k =>
         if lock_free s then Some (set_pc (set_lock s (Some t)) t (if cfg_bw_recheck c then BW2 n o k else BW3 n o k))
         else None
@@ -305,14 +306,14 @@ Definition run (c : cfg) (sch : list (nat * nat)) (s : st) : st := fold_left (st
 
 (* ---- history predicates over a log (newest first); also evaluated on logs recorded from the Go code ---- *)
 Definition started_in (l : list event) (w : nat) : bool :=
-  existsb (fun e => match e with EvStart v _ _ => Nat.eqb v w | _ => false end) l.
+  existsb (fun e => match e with EvStart v _ _ _ => Nat.eqb v w | _ => false end) l.
 Definition returned_in (l : list event) (w : nat) : bool :=
   existsb (fun e => match e with EvReturn v => Nat.eqb v w | _ => false end) l.
 Definition live_in (l : list event) (w : nat) : bool := started_in l w && negb (returned_in l w).
 Fixpoint order_in (l : list event) (w : nat) : Z :=
   match l with
   | [] => 0
-  | EvStart v _ o :: r => if Nat.eqb v w then o else order_in r w
+  | EvStart v _ _ o :: r => if Nat.eqb v w then o else order_in r w
   | _ :: r => order_in r w
   end.
 Definition shut_in (l : list event) : bool :=
@@ -322,14 +323,16 @@ Definition shut_in (l : list event) : bool :=
 Definition cancel_ok (old : list event) (w : nat) : bool :=
   negb (live_in old w) ||
   forallb (fun e => match e with
-                    | EvStart v _ o => (o <=? order_in old w) || returned_in old v
+                    | EvStart v _ _ o => (o <=? order_in old w) || returned_in old v
                     | _ => true end) old.
 (* stopOnce.Do(shutdown) returns: every started worker has returned *)
 Definition all_returned (old : list event) : bool :=
-  forallb (fun e => match e with EvStart v _ _ => returned_in old v | _ => true end) old.
-(* name n is free: every started worker of that name has returned *)
-Definition name_free (old : list event) (n : nat) : bool :=
-  forallb (fun e => match e with EvStart v n' _ => negb (Nat.eqb n n') || returned_in old v | _ => true end) old.
+  forallb (fun e => match e with EvStart v _ _ _ => returned_in old v | _ => true end) old.
+(* name n is free for call t: every started worker of that name registered by another call has returned *)
+Definition name_free (old : list event) (t n : nat) : bool :=
+  forallb (fun e => match e with
+                    | EvStart v c n' _ => negb (Nat.eqb n n') || Nat.eqb c t || returned_in old v
+                    | _ => true end) old.
 Fixpoint name_of_call (l : list event) (t : nat) : option nat :=
   match l with
   | [] => None
@@ -348,10 +351,10 @@ Definition event_ok (old : list event) (e : event) : bool :=
   match e with
   | EvCancel w => cancel_ok old w
   | EvShutRet _ => all_returned old
-  | EvStart _ _ _ => negb (shut_in old)                    (* nothing starts after a shutdown returned *)
+  | EvStart _ _ _ _ => negb (shut_in old)                    (* nothing starts after a shutdown returned *)
   | EvBW t ROk =>
       negb (begun_after_shut old t) &&                      (* registration after shutdown is refused *)
-      match name_of_call old t with Some n => name_free old n | None => true end   (* a running name is refused *)
+      match name_of_call old t with Some n => name_free old t n | None => true end   (* a running name is refused *)
   | _ => true
   end.
 Fixpoint hist_ok (l : list event) : bool :=
